@@ -16,8 +16,10 @@ crate — exactly.  Replies:
   shape of the history (`L-…`, `N-…`, `M-…`, or `none`), computed from the request alone by the same
   rule on both sides; `./check` reports an agreed wrong decode under that known finding and everything
   else (the model does not reproduce the bytes, or no known shape) as a new violation.
-`INCWHY` (model only): the strict validation of the protocol model (`validate`) that the C19 theorems
-are about; `INCX` (model only): the faithful model's own per-step outputs.
+* `err protocol-model-rejects`: (never expected) the faithful model agrees and the bytes decode, but the
+  strict validator of the *protocol* model (`validate`, what the C19 theorems are about) rejects an
+  undo-free history.
+`INCWHY` (model only): the verdict of `validate` alone.
 -/
 namespace Clvm.Proto
 open Clvm.Serde.Incremental Clvm.Serde.TreeCache
@@ -204,7 +206,16 @@ def handleInc (args : List String) : Option String := do
           match Clvm.Serde.Backref.deBrNew r.s.output.buf [.sexp] [] Clvm.Serde.Backref.Ctr.default with
           | .ok (t, rest, _) => t == want && rest.isEmpty
           | .error _ => false
-      if good then some s!"ok {sizes} complete"
+      if good then
+        -- tie of the *protocol* model (the one the C19 theorems are about) to the same run: on a history
+        -- without undo whose bytes decode correctly its strict validator must accept the recorded bytes
+        -- (with undo it may object to a back-reference inside an addition that was undone later)
+        let noUndo := steps.all (fun x => isAdd x.1)
+        if noUndo && !(match validate sentinel (steps.map (fun x => (x.1.toReq, x.2))) with
+            | .ok _ => true
+            | .error _ => false) then
+          some "err protocol-model-rejects"
+        else some s!"ok {sizes} complete"
       else some s!"err wrong-decode known={shapeTag sentinel (steps.map (·.1))}"
 
 /-- `INCWHY`: the strict validation of the protocol model -/
